@@ -273,9 +273,25 @@ def dot {K} [Add K] [Mul K] [Zero K] : List K → List K → K
 (`amp ≥ 0`, `amp² = Cn²`), `A`, `B` are rows of the two matrices (built for `Cn² = 1`). -/
 def arSample {K} [Add K] [Mul K] [Zero K] (A st B rnd : List K) (amp : K) : K := dot A st + dot B rnd * amp
 
-/-- a sample of the finite layer's screen: the spectral coefficients are `sqrt(psd)` times unit normals and the
-von-Kármán `psd` is proportional to `r0^(-5/3) = 0.423 k² Cn²`, so the sample is `amp` times the sample of the
-unit-strength screen with the same normals. -/
-def finSample {K} [Mul K] (amp unit : K) : K := amp * unit
+/-- **numeric `_extrude(where)`**, as the code computes it: `stencil_data = screen[stencil]` (on the flat-reversed
+screen for `top`/`right`; `idx` = the positions where the boolean stencil is set), one `arSample` per row of `A`, `B`
+for the new column/row, then the list surgery of `Shift.extrude`. -/
+def arExtrude {K} [Add K] [Mul K] [Zero K] (w : Where) (W H : Nat) (A B : List (List K)) (idx : List Nat)
+    (rnd : List K) (amp : K) (s : List K) : List K :=
+  let st := idx.map fun i => (stencilView w s).getD i 0
+  Shift.extrude w W H (List.zipWith (fun a b => arSample a st b rnd amp) A B) s
+
+/-- the data of one extrusion: side, the two matrices (built for unit strength), stencil positions, normals -/
+structure ArStep (K : Type) where
+  w : Where
+  A : List (List K)
+  B : List (List K)
+  idx : List Nat
+  rnd : List K
+
+/-- a sequence of extrusions with the amplitude `amp = sqrt(Cn²)` -/
+def arRun {K} [Add K] [Mul K] [Zero K] (W H : Nat) (amp : K) : List (ArStep K) → List K → List K
+  | [], s => s
+  | e :: es, s => arRun W H amp es (arExtrude e.w W H e.A e.B e.idx e.rnd amp s)
 
 end HcipyVerif.Layer
